@@ -35,7 +35,12 @@ fn load_sum(m: &mut M, d: usize, hi: f64, delta: f64) {
 /// arguments of small magnitude, one binade at a time over the range in which the behaviour of a
 /// double-double algorithm changes (terms of order x^2, x^3 cross the 2^-106 resolution)
 fn tiny_arg(r: &mut Rng) -> f64 {
-    let e = r.range(-118, -1) as i32;
+    // round-robin over the binades (starting at a seed-dependent offset) so that every binade is visited
+    let t = r.tick();
+    if t == 1 {
+        r.ticks += r.below(118);
+    }
+    let e = -1 - (r.ticks % 118) as i32;
     log_uniform(r, e, e + 1)
 }
 
@@ -378,7 +383,7 @@ pub fn logs(m: &mut M, r: &mut Rng, n: u64) {
 
 // ------------------------------------------------------------------------------------ C16
 fn trig_arg(m: &mut M, r: &mut Rng, d: usize) {
-    match r.below(10) {
+    match r.below(12) {
         0..=2 => {
             // both sides of multiples of pi/4 (the f64 product is within an ulp; add a few ulps of offset)
             let k = match r.below(3) {
@@ -402,6 +407,10 @@ fn trig_arg(m: &mut M, r: &mut Rng, d: usize) {
         5 => {
             let z = if r.coin() { 0.0 } else { -0.0 };
             m.load(d, z, 0.0);
+        }
+        10 | 11 => {
+            let h = sgn(r) * tiny_arg(r);
+            load_near(m, r, d, h);
         }
         6 => {
             // quadrant by quadrant near small multiples
